@@ -18,14 +18,14 @@ Eval(i) ==
          ELSE /\ RollKernelOK(X, W, ND, RollAlgo("sumvalid", X, W, ND))
               \* the accessor's trimming keeps exactly the complete windows
               /\ RollAccessorOK(X, W, ND, SubSeq(RollAlgo("sumvalid", X, W, ND), W, Len(X)))
-    ELSE MeanGrpAlgoOK(i[1], i[2], i[3], ND)
+    ELSE \* every labeling of the series with exactly the groups 0..k-1 (evaluated here so that TLC's workers share it)
+         \A g \in [1..Len(i[1]) -> 0..(i[2] - 1)] : Surj(g, i[2]) => MeanGrpAlgoOK(i[1], g, i[2], ND)
 
 Init ==
     /\ ok = "todo"
     /\ IF Mode = "roll"
        THEN \E n \in 1..MaxLen : \E X \in [1..n -> Alphabet] : \E W \in 1..n : inp = <<X, W>>
-       ELSE \E n \in 1..MaxLen : \E kk \in 1..MaxGroups : \E X \in [1..n -> Alphabet] :
-               \E g \in [1..n -> 0..(kk - 1)] : Surj(g, kk) /\ inp = <<X, g, kk>>
+       ELSE \E n \in 1..MaxLen : \E kk \in 1..MaxGroups : \E X \in [1..n -> Alphabet] : inp = <<X, kk>>
 Next == ok = "todo" /\ ok' = (IF Eval(inp) THEN "yes" ELSE "no") /\ UNCHANGED inp
 Spec == Init /\ [][Next]_<<inp, ok>>
 Holds == ok # "no"
